@@ -171,6 +171,9 @@ def classify(op, l, r, lbase=None):
     """differences that are recorded findings (identified by the operation and the shape of the difference)"""
     if op[0] == "size" and isinstance(l, int) and isinstance(r, int) and r > l and lbase and has_symlink(os.path.join(lbase, *op[1])):
         return "KF-C24-size-follows-symlinks"
+    if op[0] in ("symlink_to", "hardlink_to") and l == "ERROR" and r is None and lbase and os.path.lexists(os.path.join(lbase, *op[1])):
+        # the link name exists already: the local API refuses, `ln -f` replaces it
+        return "KF-C24-link-replaces-existing"
     if op[0] == "mkdir" and op[3] != op[4] and l == "ERROR" and r is None:
         # parents=True without exist_ok on an existing directory, or exist_ok=True without parents under a missing parent
         return "KF-C24-mkdir-p-conflates-flags"
@@ -201,7 +204,7 @@ async def one_history(n_ops):
                 kf = classify(op, lres, rres, os.path.join(base, "L"))
                 if kf:
                     KNOWN.add(kf)
-                    if op[0] == "mkdir":
+                    if op[0] in ("mkdir", "symlink_to", "hardlink_to"):
                         return None  # the two trees differ from here on: the history ends
                     continue
                 return {"failure": "remote and local result differ", "operation": repr(op)[:300], "local": repr(lres)[:300], "remote": repr(rres)[:300],
@@ -226,6 +229,7 @@ DIRECTED = [
     # (finding, operations): each reproduces one recorded finding on the unchanged tree
     ("KF-C24-read-text-strips", [("write_text", ("t.txt",), "line\n"), ("read_text", ("t.txt",))]),
     ("KF-C24-size-follows-symlinks", [("mkdir", ("d",), 0o755, True, True), ("write_text", ("f.txt",), "0123456789"), ("symlink_to", ("d", "l.lnk"), ("f.txt",)), ("size", ("d",))]),
+    ("KF-C24-link-replaces-existing", [("write_text", ("a.txt",), "x"), ("write_text", ("b.txt",), "y"), ("symlink_to", ("l.lnk",), ("a.txt",)), ("symlink_to", ("l.lnk",), ("b.txt",))]),
     ("KF-C24-mkdir-p-conflates-flags", [("mkdir", ("e",), 0o755, True, True), ("mkdir", ("e",), 0o755, True, False), ("mkdir", ("g", "h"), 0o755, False, True)]),
 ]
 
